@@ -142,6 +142,7 @@ func init() {
 		if c.A["signer"] != "anon" {
 			signerPk = unhx(c.A["signer"])[32:]
 		}
+		armoredDone := false
 		check := func(what string, ring *hRing, res saltpack.SymmetricKeyResolver) {
 			ring.signers = [][]byte{signerPk}
 			spk, pt, e := saltpack.SigncryptOpen(out, ring, res)
@@ -160,6 +161,31 @@ func init() {
 			o := implScOpen(ring, res, out, 1+h.rng.Intn(100))
 			if o.hdrErr != nil || o.end != io.EOF || !bytes.Equal(o.released, msg) {
 				fs = append(fs, Failure{Kind: "oracle", Key: "sc-roundtrip-stream", Desc: what + ": streaming open of a genuine message: " + clip(o.String(), 200)})
+			}
+			if armoredDone {
+				return
+			}
+			armoredDone = true
+			if pe := guard(func() error {
+				txt, e := saltpack.Armor62Seal(out, saltpack.MessageTypeEncryption, "")
+				if e != nil {
+					return e
+				}
+				_, pt2, _, e := saltpack.Dearmor62SigncryptOpen(txt, ring, res)
+				if e != nil || !bytes.Equal(pt2, msg) {
+					return fmt.Errorf("Dearmor62SigncryptOpen: %d bytes, err %v", len(pt2), e)
+				}
+				_, rd, _, e := saltpack.NewDearmor62SigncryptOpenStream(strings.NewReader(txt), ring, res)
+				if e != nil {
+					return e
+				}
+				pt3, e := io.ReadAll(rd)
+				if e != nil || !bytes.Equal(pt3, msg) {
+					return fmt.Errorf("NewDearmor62SigncryptOpenStream: %d bytes, err %v", len(pt3), e)
+				}
+				return nil
+			}); pe != nil {
+				fs = append(fs, Failure{Kind: "oracle", Key: "sc-roundtrip-armored", Desc: fmt.Sprintf("%s: armored form of a genuine %d-byte message does not open: %.200s", what, len(msg), pe.Error())})
 			}
 		}
 		for i, sk := range unblist(c.A["bsk"]) {
